@@ -3,11 +3,13 @@
 // universe of heights, block hashes and transaction hashes ever used, canonicalised.
 //
 // input  (one JSON object per line):
-//   {"full":bool,"kh":int,"ops":[{"op":"p","num":0,"txs":[..],"nrc":-1,"ic":[[k,[i..]]..],"tag":0,"par":-1,"bad":0},
-//                                {"op":"r","t":2},{"op":"o"}]}
-//   full=true : ledger.New + PersistBlockData + Ledger.Rollback;  false: NewChainLedgerImpl +
-//   PersistExecutionResult + RollbackBlockChain.   num 0 = head+1;  par -1 = current head hash,
-//   -2 = zero hash, k>=0 = hash of the block made by op k;  bad: 1 hash, 2 tx root, 4 receipt root.
+//
+//	{"full":bool,"kh":int,"ops":[{"op":"p","num":0,"txs":[..],"nrc":-1,"ic":[[k,[i..]]..],"tag":0,"par":-1,"bad":0},
+//	                             {"op":"r","t":2},{"op":"o"}]}
+//	full=true : ledger.New + PersistBlockData + Ledger.Rollback;  false: NewChainLedgerImpl +
+//	PersistExecutionResult + RollbackBlockChain.   num 0 = head+1;  par -1 = current head hash,
+//	-2 = zero hash, k>=0 = hash of the block made by op k;  bad: 1 hash, 2 tx root, 4 receipt root.
+//
 // output (one JSON object per line): entries (interned), universe, hash/root oracle tables, steps.
 package main
 
@@ -22,8 +24,10 @@ import (
 	"github.com/meshplus/bitxhub-kit/types"
 	"github.com/meshplus/bitxhub-model/pb"
 	"github.com/meshplus/bitxhub/internal/ledger"
+	"github.com/meshplus/bitxhub/internal/model/events"
 	"github.com/meshplus/bitxhub/verifharness/clx"
 	"github.com/meshplus/bitxhub/verifharness/hx"
+	ledger2 "github.com/meshplus/eth-kit/ledger"
 )
 
 type opIn struct {
@@ -216,8 +220,11 @@ func runHistory(line []byte) (interface{}, error) {
 
 // ---------------------------------------------------------------- executor-level leg
 //
-// input : {"ops":[{"op":"x","n":3,"bad":1},{"op":"o"}], "kh":k}   x = the REAL executor executes a
-// block of n native transfers (bad>0: that many of them carry a wrong nonce and fail), o = restart.
+// input : {"ops":[{"op":"x","n":3,"bad":1},{"op":"y","k":3,"n":2},{"op":"o"}], "kh":k}
+// x = the REAL executor executes a block of n native transfers at head+1 (bad>0: that many of
+// them carry a wrong nonce and fail); y = consensus RE-DELIVERS a different block for the already
+// executed height k (2 <= k <= head): the executor's own rollbackBlocks path (block.Number !=
+// currentHeight+1 -> ledger.Rollback(k-1) -> execute on top of block k-1); o = restart.
 // The blocks are sealed by executor.processExecuteEvent; the entries reported are what the
 // executor handed to the ledger (header, hash, transactions from the executed event; receipts
 // and interchain meta read back).  Output has the shape of the chain driver's.
@@ -228,7 +235,29 @@ type execIn struct {
 		Op  string `json:"op"`
 		N   int    `json:"n"`
 		Bad int    `json:"bad"`
+		K   uint64 `json:"k"`
 	} `json:"ops"`
+}
+
+// heightShim makes hx.Chain.ExecBlock (which numbers the block Height()+1 and drains the executor's
+// event channel) deliver a block with a chosen number: only the harness's view of the chain height is
+// shimmed for the duration of the call; the executor keeps its own reference to the real ledger.
+type heightShim struct {
+	ledger2.ChainLedger
+	h uint64
+}
+
+func (s heightShim) GetChainMeta() *pb.ChainMeta {
+	m := s.ChainLedger.GetChainMeta()
+	m.Height = s.h
+	return m
+}
+
+func execAt(c *hx.Chain, number uint64, txs []pb.Transaction) *events.ExecutedEvent {
+	real := c.Ledger
+	c.Ledger = &ledger.Ledger{ChainLedger: heightShim{real.ChainLedger, number - 1}, StateLedger: real.StateLedger}
+	defer func() { c.Ledger = real }()
+	return c.ExecBlock(txs, true, 20*time.Second)
 }
 
 func execPass(h execIn, t *clx.Tables, observe bool, uh, ut []*types.Hash) (out histOut, madeB, madeT []*types.Hash, err error) {
@@ -241,6 +270,22 @@ func execPass(h execIn, t *clx.Tables, observe bool, uh, ut []*types.Hash) (out 
 		return &clx.Stores{Dir: c.Dir, Ledger: c.Ledger, CL: c.Ledger.ChainLedger.(*ledger.ChainLedgerImpl), Repo: c.Repo}
 	}
 	nonces := make([]uint64, 4)
+	nonceAt := map[uint64][]uint64{1: {0, 0, 0, 0}} // account nonces after block h (for re-delivery)
+	mkTxs := func(i, n, bad, salt int) []pb.Transaction {
+		var txs []pb.Transaction
+		for j := 0; j < n; j++ {
+			a := (i + j) % 4
+			to := hx.Addr(hx.Key(5000 + j + 100*salt))
+			nonce := nonces[a]
+			if j < bad {
+				nonce += 7 // wrong nonce: the transaction fails, its receipt is still stored
+			} else {
+				nonces[a]++
+			}
+			txs = append(txs, hx.TransferTx(c.Admins[a], nonce, to, "1"))
+		}
+		return txs
+	}
 	entryOf := func(opIdx int, height uint64) (clx.Entry, *types.Hash, []*types.Hash, error) {
 		s := view()
 		b, err := s.CL.GetBlock(height, true)
@@ -279,25 +324,28 @@ func execPass(h execIn, t *clx.Tables, observe bool, uh, ut []*types.Hash) (out 
 	for i, o := range h.Ops {
 		code := 0
 		switch o.Op {
-		case "x":
-			var txs []pb.Transaction
-			for j := 0; j < o.N; j++ {
-				a := (i + j) % 4
-				to := hx.Addr(hx.Key(5000 + j))
-				nonce := nonces[a]
-				if j < o.Bad {
-					nonce += 7 // wrong nonce: the transaction fails, its receipt is still stored
-				} else {
-					nonces[a]++
-				}
-				txs = append(txs, hx.TransferTx(c.Admins[a], nonce, to, "1"))
-			}
+		case "x", "y":
 			before := c.Height()
-			ev := c.ExecBlock(txs, true, 20*time.Second)
-			if ev == nil || c.Height() != before+1 {
+			target := before + 1
+			if o.Op == "y" {
+				if o.K < 2 || o.K > before {
+					return out, nil, nil, fmt.Errorf("re-delivery needs 2 <= k <= head")
+				}
+				target = o.K
+				copy(nonces, nonceAt[target-1]) // the state is rolled back to block k-1
+			}
+			txs := mkTxs(i, o.N, o.Bad, i+1) // receivers depend on the op: a re-delivered block differs
+			var ev *events.ExecutedEvent
+			if o.Op == "y" {
+				ev = execAt(c, target, txs)
+			} else {
+				ev = c.ExecBlock(txs, true, 20*time.Second)
+			}
+			if ev == nil || c.Height() != target {
 				code = 8
 				break
 			}
+			nonceAt[target] = append([]uint64{}, nonces...)
 			e, bh, txh, err := entryOf(i, c.Height())
 			if err != nil {
 				return out, nil, nil, err
